@@ -102,3 +102,13 @@ CHECKS['C05'] = dict(
          'membership predicate in all six tokenizers.',
     note='Not decided: equality with the reference filter on whole documents. C11 decides that valid is closure(include) - closure(exclude).',
 )
+
+CHECKS['C07'] = dict(
+    category='other',
+    technique='region enumeration of difference-bound guards (validator, range-to-stage if-tree) with affine normal forms of the selected expressions; guard truth table of the measure-start flag; path/placement rule for the index append; iteration protocol shape',
+    text='Decides for every document: the validator rejects exactly the three out-of-range cases with ValueError and runs first; the upper stage '
+         'bound is index[b] on the whole region 1 <= b <= L-1 and the last stage otherwise, the lower bound index[a-1] / 0, the loop includes '
+         'the closing barline; the measure index gets one entry per row under `BARLINES or (CORE and index empty)`; iteration yields 1..count.',
+    note='Regions are enumerated with a representative measure count (the guards compare b with L+c, a with 0 and b with a only: anything '
+         'else is outside the fragment and ends with exit 2). Not decided: whether the barlines found are the intended measure boundaries.',
+)
